@@ -1671,6 +1671,7 @@ fn tiny_programs() -> Vec<Program> {
         COp::Match { qty: 2, taker: model::oid(9001) },
         COp::Match { qty: 9, taker: model::oid(9002) },
         COp::Cancel(x),
+        COp::Move(x, 1),
         COp::Amend { id: x, qty: 7 },
         COp::Amend { id: x, qty: 1 },
         COp::Add(o(model::Kind::Standard, 50, 3, 0, &d)),
@@ -1889,7 +1890,7 @@ pub fn bounded_sweep(which: Which, rep: &mut Report, bound: u32, max_programs: u
     rep.set(
         "exhaustive_scope",
         json!(format!(
-            "for {} of the {} small programs (156 tiny ones: 2 threads x 1 operation from {{match 2, match 9, cancel X, amend X->7, amend X->1, add, snapshot}} on 5 preloads, plus 3 three-thread programs; and a fixed pool of 96 generated 2 threads x 2 operations programs, with one preemption less) EVERY schedule with at most {} preemptions was executed; everything else is sampled",
+            "for {} of the {} small programs (about 190 tiny ones: 2 threads x 1 operation from {{match 2, match 9, cancel X, move X to another price, amend X->7, amend X->1, add, snapshot}} on 5 preloads, plus 3 three-thread programs; and a fixed pool of 96 generated 2 threads x 2 operations programs, with one preemption less) EVERY schedule with at most {} preemptions was executed; everything else is sampled",
             d.2,
             progs.len(),
             bound
